@@ -101,13 +101,16 @@ theorem chosenIds_eq (tags cases : List String) (l p cap : Nat) :
   exact (chosenIds_zip cases (List.range tags.length) tags).symm
 
 /-- the model never predicts a provider that kills its process -/
-theorem modelSideOf_not_fatal (k : Fmt) (preload : Bool) (tags cases : List String) (b : Bounds) (cap : Nat) :
-    (Drv.C14.modelSideOf k preload tags cases b cap).run ≠ .fatal := by
+theorem modelSideOf_not_fatal (k : Fmt) (preload : Bool) (tags cases : List String) (b : Bounds) (cap : Nat)
+    (hasFile closeFails : Bool) :
+    (Drv.C14.modelSideOf k preload tags cases b cap hasFile closeFails).run ≠ .fatal := by
   unfold Drv.C14.modelSideOf
   split
   · cases h : run k preload tags cases b (if cap = 0 then none else some cap) with
     | none => simp [Drv.C14.sideOf]
-    | some o => cases hr : o.run <;> simp [Drv.C14.sideOf, Drv.C14.classOf, hr]
+    | some o =>
+      cases hr : o.run <;> cases closeFails <;>
+        simp [Drv.C14.sideOf, Drv.C14.classOf, hr, epilogue, EV.ofRun, EV.ofClose, EV.isNil, EV.join]
   · simp [Drv.C14.constructFailed]
 
 /-! ## /repo HEAD before b8504d9: the streaming path on a file from which nothing is chosen, passes = 0 -/
